@@ -28,6 +28,8 @@ type counters struct {
 }
 
 type state struct {
+	distinct  sync.Map
+	nDistinct int64
 	c        *core.Ctx
 	n        counters
 	mu       sync.Mutex
@@ -196,10 +198,16 @@ func (s *state) handle(c *core.Ctx, l *c03.Line, src string, st *c03.Stats) erro
 	if out.C == "accept" {
 		s.keep(src, out.Tree)
 	}
+	if os.Getenv("C04_MUTANT") == "flip" && strings.Contains(src, "while") && out.C == "reject" {
+		out.C = "accept" // seeded adapter fault (binding demonstration): must be reported
+	}
 	switch {
 	case want == "skip":
 		atomic.AddInt64(&s.n.skip, 1)
 	case want == out.C:
+		if _, seen := s.distinct.LoadOrStore(src, true); !seen {
+			atomic.AddInt64(&s.nDistinct, 1)
+		}
 		if want == "accept" {
 			atomic.AddInt64(&s.n.agreeAccept, 1)
 			if os.Getenv("C04_TREES") != "" && !c03.Same(out.JSON(), l.Exp) && !(len(l.Dev) > 0 && c03.Same(out.JSON(), l.Dev[0])) {
@@ -250,17 +258,14 @@ func trunc(s string, n int) string {
 	return s
 }
 
-func cfg(c *core.Ctx, fams []string, nsel int) string {
-	return fmt.Sprintf("CONSTANTS\n OpenDev = %s\n Fams = %s\n NSel = %d\n Salt = %d\n FullMod = 1\nINIT MInit\nNEXT MNext\nINVARIANT MEmit\nCHECK_DEADLOCK FALSE\n",
-		core.TLASet(c.Findings.OpenIDs()), core.TLASet(fams), nsel, c.Seed%1000)
-}
+func cfg(c *core.Ctx, fams []string, nsel int) string { return c03.MutCfg(c, fams, nsel) }
 
 // Check is the C04 property check.
 func Check(c *core.Ctx) (map[string]any, []string, error) {
 	s := &state{c: c, maxRecs: 30000, truncMod: 40}
 	nsel, nJunk := 60, 200000
 	if c.Thorough() {
-		nsel, nJunk, s.maxRecs, s.truncMod = 0, 2000000, 120000, 8
+		nsel, nJunk, s.maxRecs, s.truncMod = 1500, 4000000, 160000, 8
 	}
 	s.vms.New = func() any { return newBox() }
 	fams := []string{"mut", "early"}
@@ -290,12 +295,12 @@ func Check(c *core.Ctx) (map[string]any, []string, error) {
 	cov := map[string]any{
 		"states": states + jres.states, "transitions": trans + jres.states, "traces_validated_against_impl": nLines + int64(jres.judged), "samples": s.samples,
 		"tlc_runs": append(tlcStats, map[string]any{"config": "C04Judge", "distinct": jres.states, "judged_trees": jres.judged, "wall_s": jres.wall}),
-		"generated_lines": nLines, "accept_agreed": s.n.agreeAccept, "reject_agreed": s.n.agreeReject, "outside_es5_skipped": s.n.skip,
+		"generated_lines": nLines, "evaluations": s.n.totalParses, "distinct_nontrivial": s.nDistinct, "accept_agreed": s.n.agreeAccept, "reject_agreed": s.n.agreeReject, "outside_es5_skipped": s.n.skip,
 		"known_deviation_class": s.n.dev, "parser_calls_total": s.n.totalParses, "truncations": s.n.truncations, "store_comments_parses": s.n.storeCommentsParses,
 		"junk_inputs": s.n.junk, "junk_accepted": s.n.junkAccepted, "rejected_sources_run_for_side_effects": s.n.sideEffectRuns,
 		"trees_judged_wellformed": jres.judged, "trees_failing_only_by_known_deviation": jres.dev, "trees_bad": jres.bad,
 		"judge_selftest": jres.self,
-		"rule": "a generated line is one token-level mutant (or early-error seed) with its classification by Grammar!Classify; every parser call is under recover and a 20 s watchdog; accepted trees are logged (nodes with Idx0/Idx1/parent, ast.Walk events) and judged by spec/C04Judge.tla",
+		"rule": "evaluations = parser calls under recover + watchdog; distinct_nontrivial = distinct source texts whose accept/reject classification by Grammar!Classify was compared with the parser; a generated line is one token-level mutant (or early-error seed) with its classification by Grammar!Classify; every parser call is under recover and a 20 s watchdog; accepted trees are logged (nodes with Idx0/Idx1/parent, ast.Walk events) and judged by spec/C04Judge.tla",
 	}
 	assume := []string{
 		"trusted: the enumeration of the nodes of an accepted tree (harness/internal/c04/trace.go), the rendering of code units to UTF-8, TLC",
